@@ -8,7 +8,7 @@ import random
 from fractions import Fraction
 from math import gcd, isqrt
 
-from vlib import common, ir, dag, cells, atoms, model, witness
+from vlib import common, ir, dag, cells, atoms, model, witness, cxx
 from vlib.common import AnalysisBroken
 
 INT_TYPES = ["int8_t", "uint8_t", "int16_t", "uint16_t", "int32_t", "uint32_t", "int64_t", "uint64_t"]
@@ -228,7 +228,61 @@ def build_module(ctx, insts, hdrs, tag):
         alive = [k for k in alive if k is not None]
         if not alive:
             return None, [], [], dropped
-    raise AnalysisBroken("IR build did not converge for chunk %s" % tag)
+    # errors inside a SHARED instantiation are reported once, for the first block that needs it: the
+    # loop above then peels one instance per round.  Judge every remaining instance on its own.
+    import os
+    wd = ctx.sub("SOLO_" + tag)
+
+    def solo(k):
+        for wcv in ([True, False] if with_conv[k] else [False]):
+            text, _ = render([insts[k]], hdrs, [wcv])
+            pth = os.path.join(wd, "s%d_%d.cc" % (k, int(wcv)))
+            with open(pth, "w") as f:
+                f.write(text)
+            rc, so, se = cxx.run(["clang++", "-std=c++14", "-fsyntax-only", "-w", "-I" + ir.AU_INC, "-I" + ir.VERIF_INC, pth])
+            if rc == 0:
+                return k, wcv
+        return k, None
+    keep = []
+    for k, wcv in cxx.pmap(solo, alive):
+        if wcv is None:
+            dropped.append(insts[k])
+        else:
+            with_conv[k] = wcv
+            keep.append(k)
+    keep.sort()
+    if not keep:
+        return None, [], [], dropped
+    cur = [insts[k] for k in keep]
+    wc = [with_conv[k] for k in keep]
+    text, ranges = render(cur, hdrs, wc)
+    path, se = ir.build_ir(ctx, text, "%s_final" % tag)
+    if path is None:
+        raise AnalysisBroken("IR build did not converge for chunk %s: %s" % (tag, se[-400:]))
+    mod = ir.parse_module(path, only=lambda n: n.split("_")[0] in ("conv", "convas", "lossy", "ovf", "trunc"))
+    return mod, cur, wc, dropped
+
+
+def checker_refused(ctx, inst, hdrs):
+    """For an instance whose checkers the compiler refuses: does the CONVERSION compile on its own
+    (then the instance is inside the quantifier and the refusal is a finding)?  -> (bool, first error)"""
+    import os
+    wd = ctx.sub("REFUSED")
+    T = inst.T
+    text, _ = render([inst], hdrs, [False])
+    head = text[:text.index('extern "C" bool lossy_0')]
+    conv = head + 'extern "C" %s conv_0(%s x) { return au::make_quantity<A0>(x).coerce_in(B0{}); }\n' % (T, T)
+    pth = os.path.join(wd, "c_%s.cc" % abs(hash(inst.key)))
+    with open(pth, "w") as f:
+        f.write(conv)
+    rc, so, se = cxx.run(["clang++", "-std=c++14", "-fsyntax-only", "-w", "-I" + ir.AU_INC, "-I" + ir.VERIF_INC, pth])
+    if rc != 0:
+        return False, ""
+    with open(pth, "w") as f:
+        f.write(text)
+    rc, so, se = cxx.run(["clang++", "-std=c++14", "-fsyntax-only", "-w", "-I" + ir.AU_INC, "-I" + ir.VERIF_INC, pth])
+    d = cxx.parse_clang(se)
+    return True, ("%s: %s" % (d[0].where(), d[0].msg[:200])) if d else se[-200:]
 
 
 def model_sets(i):
@@ -340,6 +394,8 @@ def analyse_instance(ctx, mod, k, inst, has_conv, findings):
         roots[nm] = d.ret
     rv = {"conv": (bits, signed), "convas": (bits, signed)} if has_conv else {}
     ar = {cn: dags[cn].arith for cn in rv}
+    # every arithmetic instruction of a checker counts too, also one whose result is no longer used
+    ar.update({nm: dags[nm].arith for nm in ("lossy", "ovf", "trunc") if nm in dags})
     part = cells.analyse(roots, tmin, tmax, ret_views=rv, arith=ar, wrap_roots=("lossy", "ovf", "trunc"))
     a, b = model_sets(inst)
     cnt = {'C03': [0, 0], 'C04': [0, 0]}
@@ -354,9 +410,18 @@ def analyse_instance(ctx, mod, k, inst, has_conv, findings):
     for cell, res in part:
         total += cell.count()
         fl, fo, ft = (cells.as_bool(res["lossy"]), cells.as_bool(res["ovf"]), cells.as_bool(res["trunc"]))
-        ub = [(nm, res[nm]) for nm in ("lossy", "ovf", "trunc") if isinstance(res[nm], cells.Bad)]
+        ub = [(nm, res[nm]) for nm in ("lossy", "ovf", "trunc") if isinstance(res[nm], cells.Bad)] + \
+             [(nm, res["!" + nm]) for nm in ("lossy", "ovf", "trunc") if isinstance(res.get("!" + nm), cells.Bad) and res["!" + nm].kind in ("signed-overflow", "division-by-zero")]
         if ub:
             nm, v = ub[0]
+            if v.kind == "remainder-narrowed":
+                # the checker's answer for this member of the cell is "does not truncate" although the
+                # remainder is not zero: the conversion then drops it
+                report("C03", "checker-%s-narrowed-remainder" % nm, v.example,
+                       "%s says false for x=%d although x*%d/%d is not an integer: %s (%s)" % ({"lossy": "is_conversion_lossy", "trunc": "will_conversion_truncate", "ovf": "will_conversion_overflow"}[nm], v.example, inst.N, inst.D, v.detail, where(v)))
+                report("C04", "checker-%s-narrowed-remainder" % nm, v.example,
+                       "%s is false for x=%d although x*%d/%d is not an integer: %s (%s)" % ({"lossy": "is_conversion_lossy", "trunc": "will_conversion_truncate", "ovf": "will_conversion_overflow"}[nm], v.example, inst.N, inst.D, v.detail, where(v)))
+                continue
             report(prop_of(nm), "checker-%s-undefined" % nm, cell.example(),
                    "evaluating the %s checker itself is undefined for x=%d: %s at %s" % (nm, cell.example(), v.kind, where(v)))
             continue
@@ -456,6 +521,8 @@ def analyse_instance(ctx, mod, k, inst, has_conv, findings):
 
 FLOAT_FACTORS = [Fraction(12), Fraction(1000), Fraction(3, 2), Fraction(5, 9), Fraction(7, 3), Fraction(10 ** 6), Fraction(2 ** 31 - 1),
                  Fraction(1, 12), Fraction(1, 1000), Fraction(2), Fraction(381, 1250), Fraction(1609344, 1000), "pi/180", "180/pi",
+                 # the identity and powers of two: the scaled value is exact, so no allowance applies
+                 Fraction(1), Fraction(1024), Fraction(1, 1024),
                  # divisors (and factors) beyond the largest finite value of the rep: the quotient is an ordinary value
                  "2^-140", "2^-1060", "2^130", "3/2^140"]
 BIG_FLOAT_FACTORS = {"2^-140": ("au::pow<-140>(au::mag<2>())", Fraction(1, 2 ** 140)), "2^-1060": ("au::pow<-1060>(au::mag<2>())", Fraction(1, 2 ** 1060)),
@@ -526,7 +593,12 @@ def float_clause(ctx, rnd):
                     # "safely below": the library pulls its bound back by one epsilon of the rep and
                     # rounds twice on the way; sixteen epsilons of the rep is a generous allowance
                     eps = Fraction(1, 2 ** (23 if t == "float" else 52))
-                    if abs(x) * fe < mx * (1 - 16 * eps):
+                    pow2 = isinstance(fe, Fraction) and fe.numerator & (fe.numerator - 1) == 0 and fe.denominator & (fe.denominator - 1) == 0
+                    if pow2 and abs(x) * fe <= mx:
+                        # "no conversion whose exact result is representable and computable is ever reported lossy"
+                        ctx.violation(key + "|overflow-false-positive-exact", "will_conversion_overflow is TRUE for %s x=%r although x times %s is exactly %r, a finite %s" % (t, float(x), f, float(x * fe), t), "cell %r" % cell)
+                        ok = False
+                    elif abs(x) * fe < mx * (1 - 16 * eps):
                         ctx.violation(key + "|overflow-false-positive", "will_conversion_overflow is TRUE for %s x=%r although |x| times %s is safely below the largest finite value" % (t, float(x), f), "cell %r" % cell)
                         ok = False
                 ndis += ok
@@ -565,6 +637,13 @@ def run(ctx, prop):
     for out, dropped, fs in cxx.pmap(do, list(enumerate(chunks))):
         stats["dropped"] += len(dropped)
         findings += fs
+        for inst in dropped:
+            # "every factor for which the conversion compiles": a checker the compiler refuses for
+            # such a conversion is no answer at all
+            inside, err = checker_refused(ctx, inst, hdrs)
+            if inside:
+                findings.append(("C04", "%s|checker-refused" % inst.key, "checker-refused", 0,
+                                 "the conversion %s compiles, but will_conversion_truncate / will_conversion_overflow / is_conversion_lossy for it are rejected by clang++ -std=c++14: %s" % (inst.key, err)))
         for inst, hc, nob, ndis, ncell in out:
             stats["instances"] += 1
             stats["without_conv"] += 0 if hc else 1
